@@ -29,17 +29,19 @@ def compileRoutineWith (stages : List Stage) (C : Comparator) (skipVerification 
 /-! ### evaluate -/
 
 mutual
-/-- `_evaluate_internal` with already parsed assignments; `fnmap` models `functions_map` as a
-    rewriting of calls (see `Expr.defineFn`). -/
+/-- `_evaluate_internal` with already parsed assignments; `fn` models `functions_map` as a rewriting of calls applied after
+    the substitution to every expression (see `Expr.defineFns` in BartiqModel/Functions.lean). -/
 def evaluateInternal (C : Comparator) (inputs : Dict Expr) (fn : Expr → Expr) (path : String) :
     CRoutine → Except Err CRoutine
   | ⟨name, ty, ips, ps, rs, cs, rep, cons, ch, ord⟩ => do
-    let newCons ← evaluateConstraints C cons inputs path
+    -- `backend.substitute(side, inputs, custom_funcs)` on both sides, THEN the comparison
+    let newCons ← evaluateConstraints (fun a b => C (fn a) (fn b)) cons inputs path
+    let newCons := newCons.map fun c => ({ c with lhs := fn c.lhs, rhs := fn c.rhs } : Constraint)
     let rep' ← (match rep with
       | none => pure none
       | some rp => do
         let rp' ← rp.substituteSymbols inputs
-        pure (some rp') : Except Err (Option Repetition))
+        pure (some (rp'.mapExpr fn)) : Except Err (Option Repetition))
     let ch' ← evaluateInternalList C inputs fn path ch
     pure { name := name, type := ty,
            inputParams := dedupSorted (ips.filter fun p => !inputs.contains p),
